@@ -71,6 +71,38 @@ impl AtomicUsize {
         self.0.store(v, order)
     }
 
+    pub fn swap(&self, v: usize, order: Ordering) -> usize {
+        #[cfg(kani)]
+        {
+            ghost::interfere(&self.0);
+            ghost::on_other_rmw("swap");
+        }
+        self.0.swap(v, order)
+    }
+
+    pub fn fetch_add(&self, v: usize, order: Ordering) -> usize {
+        #[cfg(kani)]
+        {
+            ghost::interfere(&self.0);
+            ghost::on_other_rmw("fetch_add");
+        }
+        self.0.fetch_add(v, order)
+    }
+
+    pub fn fetch_or(&self, v: usize, order: Ordering) -> usize {
+        #[cfg(kani)]
+        {
+            ghost::interfere(&self.0);
+            ghost::on_other_rmw("fetch_or");
+        }
+        self.0.fetch_or(v, order)
+    }
+
+    pub fn compare_exchange_weak(&self, cur: usize, new: usize, succ: Ordering, fail: Ordering) -> Result<usize, usize> {
+        // a weak compare-exchange may fail spuriously; apart from that it is the strong one
+        self.compare_exchange(cur, new, succ, fail)
+    }
+
     pub fn compare_exchange(&self, cur: usize, new: usize, succ: Ordering, fail: Ordering) -> Result<usize, usize> {
         #[cfg(kani)]
         ghost::interfere(&self.0);
@@ -160,6 +192,10 @@ pub mod ghost {
             assert!(OWNER.load(SeqCst) == 0, "[C18] at most one thread is elected writer");
             OWNER.store(1, SeqCst);
         }
+    }
+
+    pub fn on_other_rmw(_what: &str) {
+        assert!(false, "[C18] guarantee: the state is modified only by the election compare-exchange and by the publishing store (an unconditional read-modify-write can overwrite COMPLETE)");
     }
 
     pub fn on_store(cur: usize, v: usize, order: Ordering) {
